@@ -346,19 +346,46 @@ an item of the input, in input order, and entry `i` is the key function applied 
 behaves as the pure function `k`, the decorated list is `xs.map (x ↦ (x, key (k x)))`).  In
 particular two items that are equal as values but differ in type (`1`, `1.0`, `1e0`), or a boolean
 and the integer of the same truth value, are each sorted by their own key. -/
-theorem key_called_per_occurrence (cfg : Cfg) (n : Nat) (c : ICtx) (a : Nat) :
-    (∀ xs D, Sim Prod.fst (hofKeys cfg (eval cfg n) c a D [] xs) (specKeys (specCall (sem n)) a xs)) ∧
+theorem key_called_per_occurrence (cfg : Cfg) (n : Nat) (ci : Bool) (c : ICtx) (a : Nat) :
+    (∀ xs D, Sim Prod.fst (hofKeys cfg (eval cfg n) ci c a D [] xs) (specKeys (specCall (sem n)) ci a xs)) ∧
     (∀ (callf : Nat → List Seq → SM Seq) (k : Item → Seq) (g : Item → List Int),
-      (∀ x, callf a [[x]] = pure (k x)) → (∀ x, keyOf (k x) = .ok (g x)) →
-      ∀ xs, specKeys callf a xs = pure (xs.map fun x => (x, g x)) ∧
+      (∀ x, callf a [[x]] = pure (k x)) → (∀ x, keyOf ci (k x) = .ok (g x)) →
+      ∀ xs, specKeys callf ci a xs = pure (xs.map fun x => (x, g x)) ∧
             (keysUniform (xs.map g) = true →
-              specSort callf a xs = pure ((sortSpec (xs.map fun x => (x, g x))).map (·.1)))) := by
-  refine ⟨fun xs D => ?_, fun callf k g hk hg xs => ⟨specKeys_pure callf a k g hk hg xs, specSort_pure callf a k g hk hg xs⟩⟩
-  simpa only [List.nil_append, bind_pure] using hofKeys_sim cfg _ _ (eval_sim cfg n) c a xs D []
+              specSort callf ci a xs = pure ((sortSpec (xs.map fun x => (x, g x))).map (·.1)))) := by
+  refine ⟨fun xs D => ?_, fun callf k g hk hg xs =>
+    ⟨specKeys_pure callf a ci k g hk hg xs, specSort_pure callf a ci k g hk hg xs⟩⟩
+  simpa only [List.nil_append, bind_pure] using hofKeys_sim cfg _ _ (eval_sim cfg n) ci c a xs D []
+
+/-- the order on key components (tests on the encoding, all by `decide`): NaN ≤ -INF ≤ finite ≤ +INF,
+`-0` and `0` have the same key, false < true; strings by code point with a proper prefix first
+(`"B" < "a" < "ab" < "b"`), and under html-ascii-case-insensitive `"a"` and `"A"` have the same key -/
+example :
+    keyOf false [.nan] = .ok [0, 0, 0] ∧ keyOf false [.inf false] = .ok [0, 1, 0] ∧
+    keyOf false [.dbl (-7)] = .ok [0, 2, -7] ∧ keyOf false [.inf true] = .ok [0, 3, 0] ∧
+    keyOf false [.negz] = keyOf false [.int 0] ∧
+    keyLe [0, 0, 0] [0, 1, 0] = true ∧ keyLe [0, 1, 0] [0, 2, -7] = true ∧ keyLe [0, 2, 9] [0, 3, 0] = true ∧
+    keyLe [0, 2, -7] [0, 0, 0] = false ∧
+    keyOf false [.str [66]] = .ok [2, 67, 0] ∧ keyOf true [.str [66]] = .ok [2, 99, 0] ∧
+    keyOf true [.str [97]] = keyOf true [.str [65]] ∧
+    keyLe [2, 67, 0] [2, 98, 0] = true ∧ keyLe [2, 98, 0] [2, 98, 99, 0] = true ∧
+    keyLe [2, 98, 99, 0] [2, 99, 0] = true ∧ keyLe [2, 99, 0] [2, 98, 99, 0] = false := by decide
+
+/-- test on literals: `sort((1e0, NaN, 2, -INF, -0e0, INF, 0), (), function($x){$x})` puts NaN first
+and keeps `-0e0` before `0` (equal keys, input order); `sort(("b","a","B","A"), C, function($x){$x})`
+is `("A","B","a","b")` by code points and `("a","A","b","B")` case-insensitively -/
+example :
+    specEval 30 (.sortK false (.par (.cat (.cat (.cat (.cat (.cat (.cat (.elit 1) .nanlit) (.lit 2))
+        (.inflit false)) .negzlit) (.inflit true)) (.lit 0))) (.fnE 0 [0] (.var 0))) =
+      .ok [.nan, .inf false, .negz, .int 0, .dbl 1, .int 2, .inf true] ∧
+    specEval 30 (.sortK false (.par (.cat (.cat (.cat (.slit [98]) (.slit [97])) (.slit [66])) (.slit [65])))
+        (.fnE 0 [0] (.var 0))) = .ok [.str [65], .str [66], .str [97], .str [98]] ∧
+    specEval 30 (.sortK true (.par (.cat (.cat (.cat (.slit [98]) (.slit [97])) (.slit [66])) (.slit [65])))
+        (.fnE 0 [0] (.var 0))) = .ok [.str [97], .str [65], .str [98], .str [66]] := by decide
 
 /-- test on literals: `sort((1, true(), 1.0, 1e0), (), function($x){ type code of $x })` — equal values,
 four types, sorted by type code boolean < double < decimal < integer -/
-example : specEval 30 (.sortK
+example : specEval 30 (.sortK false
     (.par (.cat (.cat (.cat (.lit 1) .tt) (.dlit 1)) (.elit 1)))
     (.fnE 0 [0] (.ite (.inst .boolean (.var 0)) (.lit 0) (.ite (.inst .double (.var 0)) (.lit 1)
       (.ite (.inst .integer (.var 0)) (.lit 3) (.lit 2)))))) =
